@@ -6,21 +6,9 @@
 struct nv_stump { int64_t m_feature; struct nv_t4 m_tables; double m_threshold; };
 static struct nv_row nv_sfw_vector(const struct nv_stump* self, int64_t k) { return nv_t4_vector(&self->m_tables, k); }  /* single_feature_wlearner_t::vector(k) = m_tables.vector(k) */
 
-void stump_predict_lambda(struct nv_stump* self, int64_t i, double value, struct nv_t4* outputs, struct nv_row* lo, struct nv_row* hi);
-void stump_split_lambda(int64_t i, double value, struct nv_cluster* cluster, struct nv_t1i* samples, double* threshold);
-
-/* loop_scalar(dataset, samples, feature, op) by its contract proved in loops.h, at the ghost position: op(nv_g, nv_v) is
- * called exactly once iff the value nv_v of sample position nv_g is finite (given) */
-static void nv_loop_scalar_predict(const struct nv_dataset* d, const struct nv_t1i* s, int64_t f, struct nv_stump* self, struct nv_t4* outputs, struct nv_row* lo, struct nv_row* hi)
-{
-  NV_LS_RECORD(d, s, f)
-  if (0 <= nv_g && nv_g < s->n && NV_ISFIN(nv_v)) stump_predict_lambda(self, nv_g, nv_v, outputs, lo, hi);
-}
-static void nv_loop_scalar_split(const struct nv_dataset* d, struct nv_t1i* s, int64_t f, struct nv_cluster* cluster, double* threshold)
-{
-  NV_LS_RECORD(d, s, f)
-  if (0 <= nv_g && nv_g < s->n && NV_ISFIN(nv_v)) stump_split_lambda(nv_g, nv_v, cluster, s, threshold);
-}
+/* loop_scalar(dataset, samples, feature, op) by its contract proved in loops.h, at the ghost position: op(nv_g, nv_v) is called
+ * exactly once iff the value nv_v of sample position nv_g is finite (given).  The stubs nv_ls_stump_* and the prototypes of the
+ * extracted lambda bodies are generated from the lambdas' current capture lists (spec.py LS_BODY, engine/hooks.py lambda_stub_hook) */
 
 #define NV_STUMP_OK(self) (__CPROVER_is_fresh(self, sizeof(*(self))) && (self)->m_tables.rows == 2)
 
